@@ -380,13 +380,14 @@ class Flow:
         return s.pvec([s.cvec(c) for c in cells])
 
     def call(s, name, args):
-        from irx import sgn
-        r = s.it.call('@' + name, args)
-        return r
+        f = s.it.m.funcs.get('@' + name)
+        if f is not None and len(args) > len(f.pnames):          # variadic: the extra arguments travel as the va_list
+            k = len(f.pnames); return s.it.call('@' + name, list(args[:k]), list(args[k:]))
+        return s.it.call('@' + name, args)
 
     def icall(s, name, args):
         from irx import sgn
-        return sgn(s.it.call('@' + name, args) & 0xffffffff, 32)
+        return sgn(s.call(name, args) & 0xffffffff, 32)
 
     # API
     def create(s):
@@ -460,7 +461,17 @@ def read_error_terms(flow, n_terms, findex=0):
         if isinstance(e, TPtr) and getattr(e.to, 'name', '').endswith('struct.vnacal_calibration'): idx = i
     calp = it.load(Ptr(flow.vnp.obj, flow.vnp.off + m.field_offset(vn_t, idx)), vn_t.els[idx])
     if calp.obj is None: return None
-    cal_t = m.resolve(vn_t.els[idx].to)
+    flow.calp = calp
+    return read_terms_of_calibration(it, calp, n_terms, findex, vn_t.els[idx].to)
+
+
+def read_terms_of_calibration(it, calp, n_terms, findex=0, cal_named=None):
+    """cal_error_term_vector[term][findex] of a vnacal_calibration_t"""
+    from irparse import TFloat, TPtr, TInt
+    from irsym import Ptr
+    m = it.m
+    if cal_named is None: cal_named = m.funcs['@_vnacal_calibration_free'].ftype.args[0].to
+    cal_t = m.resolve(cal_named)
     # cal_error_term_vector: the only double complex ** member ({double,double}**)
     vidx = None
     for i, e in enumerate(cal_t.els):
@@ -471,7 +482,6 @@ def read_error_terms(flow, n_terms, findex=0):
     for t in range(n_terms):
         tp = it.load(Ptr(vecp.obj, vecp.off + 8 * t), TPtr(TInt(8)))
         out.append(C(it.load(Ptr(tp.obj, tp.off + 16 * findex), D), it.load(Ptr(tp.obj, tp.off + 16 * findex + 8), D)))
-    flow.calp = calp
     return out
 
 
